@@ -34,7 +34,9 @@ monitors! {
     "C02" => c02,
     "C03" => c03,
     "C04" => c04,
+    "C05" => c05,
     "C08" => c08,
+    "C12" => c12,
     "C17" => c17,
 }
 
